@@ -71,6 +71,7 @@ Fixpoint show (e:expr) (parent:option (bk*dir)) : option (list N) :=
     | None => None end
   | Un UFact c => match show c None with Some s => Some (s ++ [33%N]) | None => None end
   | Un USgn c => match show c None with Some s => Some ([115;103;110;40]%N ++ s ++ [41%N]) | None => None end
+  | Un UAbs c => match show c None with Some s => Some ([97;98;115;40]%N ++ s ++ [41%N]) | None => None end
   | Bin KPow l r =>
     match show l (Some (KPow,DL)), show r (Some (KPow,DR)) with
     | Some a, Some b =>
